@@ -104,7 +104,7 @@ func init() {
 		if fn == nil {
 			return
 		}
-		want := fmt.Sprintf("(%d < iface:tcpip.Payload.Size($1))", 65535-hs)
+		want := fmt.Sprintf("(iface:tcpip.Payload.Size($1) < %d)", 65535-hs+1)
 		found := false
 		for _, e := range CondEdges(fn) {
 			if e.Atom == want {
